@@ -30,7 +30,7 @@ def main():
     d = os.path.abspath(sys.argv[1])
     wt = tempfile.mkdtemp(prefix="verif_confirm_")
     os.rmdir(wt)
-    target = "/tmp/verif_confirm_target"
+    target = os.environ.get("VERIF_CONFIRM_TARGET", "/tmp/verif_confirm_target")
     try:
         subprocess.check_call(["git", "-C", "/repo", "worktree", "add", "-q", "--detach", wt, "HEAD"])
         demo = os.path.join(d, "demo.diff")
